@@ -1360,15 +1360,23 @@ def c25_unpack(R):
         "_unpack_truisms_and no longer unions what every conjunct unpacks to",
         construct="_unpack_truisms_and",
     )
+    # the conjuncts themselves may be handed back only if bounds are kept apart by signedness: one run records every
+    # bound in one table per direction, keyed by the expression, and `w <s 5 && w >=u 3` would otherwise give w in [3, 4]
+    keyed_by_sign = False
+    for nm in ("_add_lower_bound", "_add_upper_bound"):
+        f_ = tree.func(BAL, f"Balancer.{nm}")
+        for sub in ast.walk(f_):
+            if isinstance(sub, ast.Subscript) and "_bounds" in ast.unparse(sub.value) and re.search(r"sign|unsigned", ast.unparse(sub.slice)):
+                keyed_by_sign = True
     R.check(
-        parts[1],
+        not parts[1] or keyed_by_sign,
         m,
         un,
-        "And -> the conjuncts themselves are handed back as truisms",
-        "_unpack_truisms_and hands back only what the conjuncts unpack to, not the conjuncts: for plain comparisons that is "
-        "nothing, the And is then processed like a comparison (ClaripyBalancerError when VSA decides its first conjunct) or its "
-        "bounds are lost",
-        construct="_unpack_truisms_and hands back the conjuncts",
+        "conjuncts are not processed in one run unless bounds are kept apart by signedness",
+        "_unpack_truisms_and hands the conjuncts themselves back as truisms while the bound tables of a run are keyed by the "
+        "expression alone: two conjuncts of different signedness bound the same expression in one table - "
+        "constraint_to_si(w <s 5 && w >=u 3) gives w in [3, 4] and cuts off 200",
+        construct="_unpack_truisms_and hands back conjuncts into one bound table",
     )
     rc = tree.func(BAL, "Balancer._reverse_comparison")
     FC = util.Frags(rc)
